@@ -2,7 +2,7 @@ import FindVerif.Model.Ast
 /-
   What a find expression means for one file, by find's rules as the property states them:
   short-circuit AND/OR, negation, ',' treated as AND (as the project documents), each test with
-  its N/+N/-N comparison, unit rounding and field, each action writing what it names and yielding
+  its N, +N or -N comparison, unit rounding and field, each action writing what it names and yielding
   true, -quit stopping the scan.  Independent of the code generator and of the Scheme runtime
   model: nothing here mentions Scheme.
 -/
